@@ -91,13 +91,15 @@ Print Assumptions C12_ranges_scalar.
 (* --- agreement with the ECMAScript grammar on the fragment ---
    in_fragment u l (Regex/FragParser.v), a left-to-right scan of the units of l:
      a backslash is followed by a unit other than a decimal digit and c k x u p P, and the escaped unit is skipped;
-     every other unit is a pattern character or one of  . | ( ) ? * + ^ $  (no bare bracket or brace);
+     every other unit is any unit except an opening bracket `[` (no classes);
      every `(?<` is followed by `=` or `!` (look-behind; named groups are outside the fragment);
-     without u no unit is a closing bracket or a brace at all.
-   Pattern u (Regex/Grammar.v): the ES2022 grammar (22.2.1 + Annex B behind the u switch) of the fragment
+     where a `{` starts a syntactically complete `{n}` `{n,}` `{n,m}`, n and m are below 2^63.
+   Pattern u (Regex/Grammar.v): the ES2022 grammar (22.2.1 + Annex B behind the u switch) and early errors of the fragment
    Disjunction, Alternative, Term (incl. Annex B QuantifiableAssertion Quantifier), Assertion ^ $ \b \B (?= (?! (?<= (?<!,
-   Quantifier * + ? with lazy suffix, Atom = PatternCharacter | . | \ AtomEscape | ( ) | (?: ), AtomEscape =
-   CharacterClassEscape d D s S w W | ControlEscape f n r t v | IdentityEscape[?U] (Annex B without u).
+   Quantifier * + ? {n} {n,} {n,m} with lazy suffix (early error: n > m, on the unbounded values), Atom = PatternCharacter | . |
+   \ AtomEscape | ( ) | (?: ), AtomEscape = CharacterClassEscape d D s S w W | ControlEscape f n r t v | IdentityEscape[?U];
+   Annex B without u: ExtendedAtom with ExtendedPatternCharacter (so `]` `{` `}` are literals where no quantifier starts) and
+   InvalidBracedQuantifier (a braced quantifier with nothing to repeat is an early error); with u a lone `{` `}` `]` is no Pattern.
    The units are the ones the validator reads (code points with u, UTF-16 code units without).
    From any validator state, in both modes: the model accepts exactly the Patterns. *)
 Theorem C12_fragment_equiv : forall st s u, in_fragment u (visible_units s u) = true ->
@@ -110,27 +112,33 @@ Theorem C12_fragment_reject : forall st s u, in_fragment u (visible_units s u) =
 Proof. exact fragment_reject. Qed.
 Print Assumptions C12_fragment_reject.
 
-(* the executable recogniser that is cross-validated against V8 decides the grammar (chars_ok u l: u = true, or no unit
-   of l is a closing bracket or a brace) *)
-Theorem C12_recogniser_decides_grammar : forall u l, chars_ok u l = true -> (recognises u l = true <-> Pattern u l).
+(* the executable recogniser that is cross-validated against V8 decides the grammar (every input, both modes) *)
+Theorem C12_recogniser_decides_grammar : forall u l, recognises u l = true <-> Pattern u l.
 Proof. exact recognises_iff_Pattern. Qed.
 Print Assumptions C12_recogniser_decides_grammar.
 
-(* non-vacuity.  ex_valid = the 35 units of  ^ \b ( a | \d STAR ) PLUS ? (?<= \. ) (?! \w ) (?: e | ) ? \B $ :
-   in the fragment, a Pattern, accepted, in both modes;
-   ex_annexb = (?= a ) STAR b  and  ex_annexb_escape = \a : Patterns without u only (Annex B), accepted without u only;
-   a STAR STAR, a lone open paren, ^ STAR, a quantified look-behind, \b STAR, \d STAR STAR: neither Patterns nor accepted *)
+(* non-vacuity.  ex_valid = the 35 units of  ^ \b ( a | \d STAR ) PLUS ? (?<= \. ) (?! \w ) (?: e | ) ? \B $  and
+   ex_braced = a{2}b{3,}?c{4,15}(?:d|e){0} : in the fragment, Patterns, accepted, in both modes;
+   ex_annexb_all = (?= a ) STAR b ,  \a ,  a{ ,  a{1 ,  a{,5} ,  x}y]z ,  { ,  (?=a){2} : Patterns without u only (Annex B),
+   accepted without u only;
+   ex_invalid_all = a STAR STAR, a lone open paren, ^ STAR, a quantified look-behind, \b STAR, \d STAR STAR, a{2,1}, {1}, a|{1,2},
+   ^{3}, a{1}{2}, (?<=a){1} : neither Patterns nor accepted, in both modes;
+   ex_big_in = a{9223372036854775807,9223372036854775806} is in the fragment and rejected by both;
+   ex_big_out = a{9223372036854775808,9223372036854775807} is not a Pattern and not in the fragment (bounds >= 2^63) *)
 Example C12_fragment_example_valid : forall st u,
   in_fragment u ex_valid = true /\ Pattern u ex_valid /\ verdict_of (validate_pattern st ex_valid u) = VOk.
 Proof. intros st u. split; [exact (ex_valid_ok u)|split; [exact (ex_valid_pattern u) | exact (ex_valid_accepted st u)]]. Qed.
-Example C12_fragment_example_annexb : forall st l, In l [ex_annexb; ex_annexb_escape] ->
-  (Pattern false l /\ ~ Pattern true l) /\
-  (verdict_of (validate_pattern st l false) = VOk /\ verdict_of (validate_pattern st l true) <> VOk).
-Proof.
-  intros st l Hin. split; [|exact (ex_annexb_validator st l Hin)].
-  cbn [In] in Hin. destruct Hin as [<-|[<-|[]]]; [exact (proj1 ex_annexb_modes)|exact (proj2 ex_annexb_modes)].
-Qed.
-Example C12_fragment_example_invalid : forall st u l,
-  In l [[97;42;42]; [40]; [94;42]; [40;63;60;61;97;41;42]; [92;98;42]; [92;100;42;42]] ->
+Example C12_fragment_example_braced : forall st u,
+  in_fragment u ex_braced = true /\ Pattern u ex_braced /\ verdict_of (validate_pattern st ex_braced u) = VOk.
+Proof. exact ex_braced_valid. Qed.
+Example C12_fragment_example_annexb : forall st l, In l ex_annexb_all ->
+  (Pattern false l /\ verdict_of (validate_pattern st l false) = VOk) /\
+  (~ Pattern true l /\ verdict_of (validate_pattern st l true) <> VOk).
+Proof. exact ex_annexb_modes. Qed.
+Example C12_fragment_example_invalid : forall st u l, In l ex_invalid_all ->
   ~ Pattern u (visible_units l u) /\ verdict_of (validate_pattern st l u) <> VOk.
 Proof. exact ex_invalid. Qed.
+Example C12_fragment_example_big_bounds : forall st u,
+  (in_fragment u ex_big_in = true /\ ~ Pattern u ex_big_in /\ verdict_of (validate_pattern st ex_big_in u) <> VOk) /\
+  (in_fragment u ex_big_out = false /\ ~ Pattern u ex_big_out).
+Proof. exact ex_big_bounds. Qed.
